@@ -49,10 +49,14 @@ HISTORY_POOL = ["a eq 1 and contains(b/c, 'x')", "a eq", "a eq ) 1", "a eq #", "
                 "a/b/c eq 1", "a/b/c/any(x: x/p/q gt 1) and", "f(a/b/c/d) eq"]
 PROBES = ["a eq 1 and contains(b/c, 'x')", "a/any(x: x/k gt 1) or not (b in (1, 2))", "a eq", "(a", "a eq #", "nosuch(1)",
           "length(1, 2)", "", "geo.distance(p, geography'SRID=0;Point(1 2)') lt 5",
+          "name in ('a', 'b', 'c', 'd', 'a')", "n in (3, 1, 2, 3, 1) and m in ('x', 1, 'x', 2.5, null, 1)",
           "a/b/c eq 1", "a/b/c/d ne a/b/c", "a/b/c/any(x: x/p/q gt 1)", "f(a/b/c) eq a/b/c/d", "ns.f(p=1, q=a/b/c, r='s')"]
 ALIAS_MAPS = [{"a": "b/c"}, {"a": "b/c", "x/y": "tolower(z)", "n": "m"}, {}, {"a": "b/c/d", "x/y": "b/c/d", "n": "b/c/d/e"}]
 REWRITE_INPUTS = ["a eq 1", "x/y eq n or f(a) gt a/k", "items/any(a: a/n eq n)"]
 # sub-expressions that are written twice inside one filter must decode identically both times
+# `in` lists with repeated members: the decoded list must keep the members as written (order and multiplicity)
+IN_LISTS = [("name in ('a', 'b', 'c', 'd', 'a')", ["'a'", "'b'", "'c'", "'d'", "'a'"]), ("n in (3, 1, 2, 3, 1)", ["3", "1", "2", "3", "1"]),
+            ("m in ('x', 1, 'x', 2.5, null, 1)", ["'x'", "1", "'x'", "2.5", "null", "1"]), ("f in (a, b, a, c/d, c/d)", ["a", "b", "a", "c/d", "c/d"])]
 REPEATED = ["a/b/c", "a/b/c/d", "a/b/c/any(x: x/p/q gt 1)", "ns.f(a/b/c, 'x')", "ns.f(p=1, q=2, r=3)", "(1, 2, 3)", "a/b"]
 
 
@@ -220,6 +224,21 @@ def repeated(i: int, j: int) -> bool:
 FRESH_SINGLE: Dict[str, Any] = {}
 
 
+def in_list_members(i: int) -> bool:
+    """`x in (m1, ..., mk)` keeps exactly the members as written: each decoded member equals that member parsed on its own"""
+    text, members = IN_LISTS[i]
+    got = outcome(ODataLexer(), ODataParser(), text)
+    if got[0] != "node" or got[1][0] != "Compare" or got[1][3][0] != "List":
+        return False
+    items = got[1][3][1][1:]
+    if len(items) != len(members):
+        return False
+    for m, d in zip(members, items):
+        if not same(fresh_outcome(m)[1], d):
+            return False
+    return True
+
+
 def expected_replacements(mp: dict) -> list:
     """every key / value of an alias map parsed by its own fresh pair"""
     return [(fresh_outcome(k)[1], fresh_outcome(v)[1]) for k, v in mp.items()]
@@ -348,7 +367,11 @@ probe = []
 for text in ["a eq 1 and contains(b/c, 'x')", "a eq", "nosuch(1)", "a/any(x: x/k gt 1) or not (b in (1, 2))",
              "ns.f(p=1, q=2)", "ns.f(p=1, q='s', r=a)", "ns.f(alpha=1, beta=2, gamma=3, delta=4, epsilon=5)", "a in ('x', 'y', 'z', 'w')",
              "concat(tolower(a), substring(b, 1, 2)) eq 'x'", "a/b/all(x: x/k in (1, 2, 3) and ns.g(u=x, v=1))",
-             "(1, (2, 3), 'a') eq b", "a/b/c/d eq a/b/c"]:
+             "(1, (2, 3), 'a') eq b", "a/b/c/d eq a/b/c",
+             # repeated members: a de-duplication through set() would make the order depend on the hash seed
+             "name in ('a', 'b', 'c', 'd', 'a')", "name in ('delta', 'alpha', 'charlie', 'bravo', 'alpha', 'echo', 'delta')",
+             "n in (3, 1, 2, 3, 1)", "m in ('x', 1, 'x', 2.5, null, 1, true, 'y')", "(1, 1, 2) eq (2, 2, 1)",
+             "f in (a, b, a, c/d, c/d)", "ns.f(p=1, q=2, p=1)", "concat(a, a) eq concat('x', 'x')"]:
     try:
         tree = ODataParser().parse(ODataLexer().tokenize(text))
         probe.append([repr(tree), AstToODataVisitor().visit(tree)])
@@ -389,7 +412,7 @@ def seed_sweep(run: Run) -> None:
                                                 "how_to_replay": f"PYTHONHASHSEED={seed} python -c 'import odata_query.grammar' ({order}) and compare the tables"},
                           f"the generated {which} differ between hash seeds / import orders ({name})", "hash-seed-sweep(concrete)")
             continue
-        run.discharged(f"hash-seed:{name}: tables, function table, precedence, 12 probe ASTs and their roundtrip renderings identical", "hash-seed-sweep(concrete)",
+        run.discharged(f"hash-seed:{name}: tables, function table, precedence, 20 probe ASTs and their roundtrip renderings identical", "hash-seed-sweep(concrete)",
                        nontrivial=False)
     run.extra["hash_seed_sweep(finite configuration sweep, not a solver verdict)"] = {"configurations": len(procs), "distinct_digests": digests}
 
@@ -400,7 +423,7 @@ def _root():
 
 
 # ---------------------------------------------------------------- main
-HEADER = "from typing import List\nfrom verif.props.c20 import step, rewriter_step, twice, repeated\n"
+HEADER = "from typing import List\nfrom verif.props.c20 import step, rewriter_step, twice, repeated, in_list_members\n"
 
 
 def _items() -> List[Item]:
@@ -429,6 +452,9 @@ def _items() -> List[Item]:
         items.append(Item(f"twice_{i}", "x0: int", f"0 <= x0 < {npr}", f"twice({i}, x0)", family="same-instance-sequence",
                           describe=f"one pair parses {PROBES[i]!r}, a symbolic pick of the {npr} probes, and {PROBES[i]!r} again: "
                                    "each outcome == fresh pair"))
+    for i, (text, _m) in enumerate(IN_LISTS):
+        items.append(Item(f"in_list_{i}", "x0: bool", "True", f"in_list_members({i})", family="repeat-within-filter",
+                          describe=f"{text!r}: the list keeps its members as written (order, multiplicity)"))
     nr = len(REPEATED)
     for i in range(nr):
         items.append(Item(f"repeated_{i}", "x0: int", f"0 <= x0 < {nr}", f"repeated({i}, x0)", family="repeat-within-filter",
@@ -444,6 +470,9 @@ def precompute() -> None:
         fresh_outcome(t)
     for x in REPEATED:
         FRESH_SINGLE[x] = outcome(ODataLexer(), ODataParser(), x)[1]
+    for _t, members in IN_LISTS:
+        for m in members:
+            fresh_outcome(m)
     for mi in range(len(ALIAS_MAPS)):
         for ti in range(len(REWRITE_INPUTS)):
             FRESH_REWRITE[(mi, ti)] = _rewriter_result(ALIAS_MAPS[mi], None, None, REWRITE_INPUTS[ti])
